@@ -41,4 +41,15 @@ def mergeOk (cap : Nat → Int) (all : List Iv) (a b : Iv) : Bool :=
 /-- the clause as it behaved before the repair -/
 def mergeOkBroken (_cap : Nat → Int) (_all : List Iv) (_a _b : Iv) : Bool := true
 
+/-- the clause as the repaired code evaluates it: `stale` is the tour's flag, `avail` the amount stored for the left opener by the
+last solution-level pass (`none`: nothing stored). While the tour is stale nothing may move onto a shared resource; otherwise
+the stored amount decides, and a missing amount does not object (`is_none_or`) -/
+def clause (stale : Bool) (avail : Option Int) (a b : Iv) : Bool :=
+  match a.res with
+  | none => true
+  | some _ => if stale then decide (b.deliv ≤ 0) else
+      match avail with
+      | none => true
+      | some v => decide (b.deliv ≤ v)
+
 end VrpModel.C01Reload
